@@ -83,6 +83,9 @@ func (f *Future[T]) PipeTo(forwarders vivid.ActorRefs) error {
 	f.mu.Lock()
 	if f.closed.Load() {
 		f.mu.Unlock()
+		// closed 在结果写入之前就已置位：必须等 done 关闭（此时 message/err 已写入）再读取，
+		// 否则与 close 并发的 PipeTo 会把空结果转发出去。
+		<-f.done
 		f.tellForwarders(forwarders, f.message, f.err)
 		return nil
 	}
